@@ -6,6 +6,7 @@ import TxdbusModel.Proofs.Route.Proxy
 import TxdbusModel.Proofs.Route.Client
 import TxdbusModel.Proofs.Route.TextSpec
 import TxdbusModel.Proofs.Route.Namespace
+import TxdbusModel.Proofs.Route.Daemon
 /-!
 # C12 - a signal reaches exactly the callbacks whose match rule it satisfies
 
@@ -382,6 +383,97 @@ theorem client_signal_exact (raises : Nat → Cb → Bool) (h : List COp) (hwf :
   unfold Router.route
   rw [hc.sim.rules, routeList_invoked raises m g.live hc.sim.wf]
 
+/-! ## 5b. the client connection together with a daemon that follows the DBus specification
+
+`Route/Daemon.lean`: the daemon keeps, per connection, a MULTISET of rule texts - `AddMatch` adds one entry (also
+for a text it already holds), `RemoveMatch` removes one entry and fails with `MatchRuleNotFound` when there is
+none - and forwards a broadcast signal while some held rule matches it (`Spec.textMatches`: the text read with
+the specification's grammar, every constraint evaluated, `sender` and `arg0namespace` included).  The client is
+the code model; what it writes reaches the daemon in the order written; the daemon's replies are delivered by
+the history (`deliver k`), in any order and with any delay; `accepts` says which texts the daemon takes as rules
+(any function).  Hypothesis `SingleRemoval`: the application does not call `delMatch(id)` again while the
+`RemoveMatch` of an earlier `delMatch(id)` is unanswered (a second `RemoveMatch` with the same text would, by the
+specification, remove the identical rule of ANOTHER registration - witness below). -/
+
+/-- `bus_rules_mirror_local_rules`.  For every history of the connection and its daemon: whenever no reply is
+outstanding, the rules the daemon holds for the connection are, as a multiset, exactly the texts of the locally
+registered rules (`match_rules.values()`): one `AddMatch` per `addMatch`, one `RemoveMatch` per `delMatch`,
+identical texts counted as often as they are registered. -/
+theorem bus_rules_mirror_local_rules (accepts : Str → Bool) (raises : Nat → Cb → Bool) (h : List SOp)
+    (hs : System.SingleRemoval Tables.gen accepts raises {} h) :
+    let s := (System.run Tables.gen accepts raises {} h).1
+    s.client.quiescent = true → s.daemon.rules.Perm s.client.localTexts := by
+  intro s hq
+  have hd : DInv s := by
+    show DInv (System.run Tables.gen accepts raises {} h).1
+    rw [gen_eq_cur] at hs ⊢
+    exact dinv_run accepts raises h {} dinv_init hs
+  exact dinv_mirror s hd hq
+
+/-- The daemon, reading the client's text with the specification's grammar, selects exactly the messages the
+rule's constraints select (rules without `sender` / `arg0namespace`, which only a daemon evaluates). -/
+theorem daemon_reads_rule_as_spec (a : RuleArgs) (m : Msg) (hs : a.sender = none) (hn : a.arg0ns = none) :
+    Spec.textMatches (renderRule a) m = specMatches a m :=
+  textMatches_render a m hs hn
+
+/-- `live_rules_keep_receiving`.  End to end, for every history of the connection and its daemon that ends with no
+reply outstanding: let `g` be the registry computed from the events the client saw alone (`Spec.ClientSpec`: a
+registration exists from the acknowledgement of its AddMatch to the acknowledgement of its RemoveMatch).  A
+broadcast signal that satisfies the rule of a registration of `g` IS forwarded by the daemon - however many
+registrations with the same text were added and removed before - and invokes exactly the registrations of `g`
+whose rule it satisfies, each once. -/
+theorem live_rules_keep_receiving (accepts : Str → Bool) (raises : Nat → Cb → Bool) (h : List SOp)
+    (hwf : ∀ cb a, SOp.addMatch cb a ∈ h → a.WF)
+    (hs : System.SingleRemoval Tables.gen accepts raises {} h) (m : Msg) :
+    let s := (System.run Tables.gen accepts raises {} h).1
+    let g := (ClientSpec.run {} (System.clientOps Tables.gen accepts raises {} h)).reg
+    s.client.quiescent = true →
+    ∀ r ∈ g.live, r.args.sender = none → r.args.arg0ns = none → specMatches r.args m = true →
+      ∃ routed, (s.step Tables.gen accepts raises (.signal m)).2 = .client (.routed routed) ∧
+        routed.invoked = (g.live.filter (fun r => specMatches r.args m)).map (fun r => (r.id, r.cb)) := by
+  intro s g hq r hr hsn hns hm
+  have hmirror := bus_rules_mirror_local_rules accepts raises h hs hq
+  have hcl : s.client = (Client.run Tables.gen raises {} (System.clientOps Tables.gen accepts raises {} h)).1 :=
+    run_client Tables.gen accepts raises h {}
+  have hex := client_signal_exact raises (System.clientOps Tables.gen accepts raises {} h)
+    (clientOps_wf Tables.gen accepts raises h {} hwf) m
+  simp only at hex
+  rw [← hcl] at hex
+  obtain ⟨hinv, htexts⟩ := hex
+  have hfw : s.daemon.forwards m = true := by
+    unfold Daemon.forwards
+    rw [hmirror.any_eq, List.any_eq_true]
+    refine ⟨renderRule r.args, ?_, ?_⟩
+    · unfold Client.localTexts
+      rw [htexts]
+      simp only [List.map_map, List.mem_map]
+      exact ⟨r, hr, rfl⟩
+    · rw [textMatches_render r.args m hsn hns]; exact hm
+  refine ⟨s.client.router.route raises m, ?_, hinv⟩
+  simp only [System.step, hfw, if_true, Client.step]
+
+/-- The hypotheses are satisfiable by the history the property is about: two registrations with identical
+constraints (the second added after the first was acknowledged), removal of the first, everything delivered. -/
+def twinHistory : List SOp :=
+  [.addMatch 0 { member := some "M".toList }, .deliver 0, .addMatch 1 { member := some "M".toList }, .deliver 1,
+   .delMatch 0, .deliver 2]
+
+example : System.SingleRemoval Tables.cur Spec.textIsRule (fun _ _ => false) {} twinHistory
+    ∧ (System.run Tables.cur Spec.textIsRule (fun _ _ => false) {} twinHistory).1.client.quiescent = true
+    ∧ (System.run Tables.cur Spec.textIsRule (fun _ _ => false) {} twinHistory).1.daemon.rules
+        = ["member='M'".toList] := by
+  decide +kernel
+
+/-- Why `SingleRemoval` is a hypothesis: `delMatch(0)` called twice before the first reply writes two `RemoveMatch`
+with the same text; the daemon honours the second by dropping the identical rule of registration 1, which is
+still registered locally - the daemon holds nothing, `match_rules` still has one entry. -/
+theorem double_removal_takes_the_twins_rule :
+    let h : List SOp := [.addMatch 0 { member := some "M".toList }, .deliver 0,
+      .addMatch 1 { member := some "M".toList }, .deliver 1, .delMatch 0, .delMatch 0, .deliver 2, .deliver 3]
+    let s := (System.run Tables.cur Spec.textIsRule (fun _ _ => false) {} h).1
+    s.client.quiescent = true ∧ s.daemon.rules = [] ∧ s.client.localTexts = ["member='M'".toList] := by
+  decide +kernel
+
 /-! ## 6. witnesses: the snapshot before the repairs violates the property at these inputs
 
 (`Pre.outcome` is the model of the unrepaired `router.py`; each line is also the replay of the defect on
@@ -449,6 +541,10 @@ end Txdbus.Route
 #print axioms Txdbus.Route.proxy_cancel
 #print axioms Txdbus.Route.client_refines_router
 #print axioms Txdbus.Route.client_signal_exact
+#print axioms Txdbus.Route.bus_rules_mirror_local_rules
+#print axioms Txdbus.Route.daemon_reads_rule_as_spec
+#print axioms Txdbus.Route.live_rules_keep_receiving
+#print axioms Txdbus.Route.double_removal_takes_the_twins_rule
 #print axioms Txdbus.Route.prefix_mtype_constraint_ignored
 #print axioms Txdbus.Route.prefix_path_namespace_sibling
 #print axioms Txdbus.Route.prefix_arg_constraint_skipped_no_body
